@@ -92,7 +92,7 @@ def execute_once(engine, text, op_name, variables, plan, choice, scheduler="rand
                                     variables=copy.deepcopy(variables), initial_value=root_value)
         me = asyncio.current_task()
         out.tasks_alive = len([t for t in asyncio.all_tasks(loop) if t is not me and not t.done()])
-        out.parked_left = len(loop.parked)
+        out.parked_left = len([g for g in loop.parked if not g.fut.done()])
         return resp
 
     try:
@@ -126,3 +126,98 @@ def pick_scheduler(t):
     busy = t.choose([30, 0, 10, 60, 100])
     mode = t.weighted([(5, "gate"), (3, "mixed"), (1, "sleep"), (1, "yield")])
     return sched, busy, mode
+
+
+# ---- several requests on one engine ---------------------------------------------------------------
+
+class Req:
+    """One client request (and, after a run, what happened to it)."""
+
+    def __init__(self, rid, text, op_name=None, variables=None, plan=None, label=""):
+        self.rid = rid
+        self.text = text
+        self.op_name = op_name
+        self.variables = variables
+        self.plan = plan
+        self.label = label
+        self.rt = None
+        self.resp = None
+        self.exc = None
+        self.cancelled = False
+
+    def clone(self):
+        return Req(self.rid, self.text, self.op_name, self.variables, self.plan, self.label)
+
+    def render(self):
+        return {"rid": self.rid, "label": self.label, "query": self.text if isinstance(self.text, str) else repr(self.text),
+                "operation_name": self.op_name, "variables": self.variables}
+
+
+def run_batch(engine, reqs, choice, scheduler="random", busy_pct=30, point_mode="gate", cancel=None,
+              stagger=True, shared=None, step_cap=200_000):
+    """Run all requests concurrently as client tasks of one SimLoop.  cancel = index of the request
+    a killer task cancels at a scheduler-chosen moment (fault: a client goes away)."""
+    loop = SimLoop(choice, scheduler, busy_pct, point_mode, step_cap)
+    out = Out()
+    for r in reqs:
+        r.rt = Runtime(r.rid, loop, r.plan)
+        r.rt.shared = shared
+        r.ctx = ReqCtx(r.rt)
+    loop.default_rt = reqs[0].rt if reqs else None
+
+    async def client(r):
+        try:
+            if stagger:
+                await loop.gate(("client", r.rid))
+            r.resp = await engine.execute(r.text, operation_name=r.op_name, context=r.ctx,
+                                          variables=copy.deepcopy(r.variables),
+                                          initial_value=r.plan.root_value if r.plan is not None else None)
+        except asyncio.CancelledError:
+            r.cancelled = True
+            raise
+        except Exception as e:  # noqa: BLE001
+            r.exc = e
+
+    async def main():
+        tasks = [loop.create_task(client(r)) for r in reqs]
+        killer = None
+        if cancel is not None:
+            async def kill():
+                await loop.gate(("killer",))
+                tasks[cancel].cancel()
+            killer = loop.create_task(kill())
+        await asyncio.gather(*tasks, return_exceptions=True)
+        if killer is not None:
+            await killer
+        me = asyncio.current_task()
+        out.tasks_alive = len([t for t in asyncio.all_tasks(loop) if t is not me and not t.done()])
+        out.parked_left = len([g for g in loop.parked if not g.fut.done()])
+
+    try:
+        run_sim(loop, main())
+    except (SimDeadlock, SimStepCap) as e:
+        out.exc = e
+    out.events, out.trace = loop.events, loop.trace
+    out.releases, out.multi_choice, out.max_parked = loop.releases, loop.multi_choice, loop.max_parked
+    out.vsec, out.order, out.ticks = loop.vsec, loop.order_digest(), loop.ticks
+    return out
+
+
+def run_solo(engine, req, choice, scheduler="fifo", busy_pct=0, point_mode="gate", shared=None):
+    r = req.clone()
+    out = run_batch(engine, [r], choice, scheduler, busy_pct, point_mode, None, False, shared)
+    return r, out
+
+
+def corrupt_text(text, t):
+    """A request text that must be refused: syntax error or a rule-breaking edit."""
+    mode = t.draw(4)
+    if mode == 0:
+        i = text.rfind("}")
+        return text[:i] + text[i + 1:], "syntax:unbalanced"
+    if mode == 1:
+        i = text.find("{")
+        return text[: i + 1] + " nopeField " + text[i + 1:], "unknown-field"
+    if mode == 2:
+        return text + " fragment Unused on Query { __typename }", "unused-fragment"
+    return text.replace("{", "{ ...Missing ", 1), "unknown-fragment"
